@@ -306,6 +306,27 @@ def gen_e2e(rng, mode=None):
                 ops.append([3000, 'sync'])
             else:
                 ops.extend(gen_master_write(rng, st))
+        elif not down and r < 0.29 and st.ports:
+            ids = [i for i, p in st.ports.items() if p['enabled']]
+            if mode == 'listen' and ids and rng.random() < 0.5:
+                # many value changes of one port in a row: they reach the master in one or two answers, far faster than it reads
+                pid = rng.choice(ids)
+                k = rng.choice([140, 200, 260])
+                ops.append([dt, 'svburst', pid, k, rng.randint(0, 50)])
+                ops.append([k * 50 + 2000, 'wait'])
+                st.ports[pid]['value'] = None          # (whatever the burst ends with; the generator does not need it)
+            elif ids and len(st.ports) < 4:
+                # a resync that already brings a port whose port-add is still queued, with further events behind it
+                pid = rng.choice(ids)
+                v = rand_value(rng, st.ports[pid]['type'])
+                st.ports[pid]['value'] = v
+                # (the port appears on the device just before it answers the GET /ports of the resync; the changes of the other
+                # port come after that answer and before the master's next listen call)
+                ops.append([dt, 'at', {'m': 'GET', 'p': '/ports'}, ['sadd', copy.deepcopy(st.new_port())]])
+                ops.append([0, 'sfull'])
+                ops.append([rng.choice([300, 800, 1700, 3000]), 'sv', pid, v])
+                ops.append([rng.choice([0, 100]), 'sa', pid, 'display_name', 'after %d' % rng.randint(0, 9)])
+                st.ports[pid]['display_name'] = ops[-1][4]
         elif second is not None and r < 0.40:
             p2 = rng.choice(second['ports'])
             if p2['enabled']:
@@ -320,6 +341,8 @@ def gen_e2e(rng, mode=None):
                 ops.append([dt] + op)
     ops.append([rng.choice([0, 100, 3000]), 'up'])
     ops.append([0, 'sync'])
+    if len(job['ports']) >= 2 and rng.random() < 0.3:
+        job['refs'] = True           # the device shares equal "definitions" objects through JSON references in GET /ports
     if rng.random() < 0.08:          # a failed restore of the slave devices before this slave is added
         job['pre_restore'] = rng.choice([[{'scheme': 'http'}], [{'scheme': 'http', 'host': 'sim', 'port': 'eighty', 'path': '/'}]])
     return job
